@@ -63,6 +63,8 @@ func mxOtherCodec(c string) codecs.Codec {
 		}
 	case "av1":
 		return &codecs.AV1{SequenceHeader: av1SeqHeaders[0]}
+	case "h265":
+		return c9CodecOf("h265", 0)
 	}
 	panic("codec not supported by the harness: " + c)
 }
@@ -77,6 +79,8 @@ func mxOtherSize(c string, ra bool, par, pay, fill int) int {
 			panic(err)
 		}
 		return len(bs)
+	case "h265":
+		return mxH264Sizes("fmp4", c9BuildH265(par, ra, pay, fill))
 	}
 	panic("codec")
 }
@@ -87,12 +91,23 @@ func mxWriteOther(r *mxRunner, t *mxTrack, ntp time.Time, pts int64, ra bool, pa
 		return r.m.WriteVP9(t.track, ntp, pts, vp9Frame(ra, par, pay, fill))
 	case "av1":
 		return r.m.WriteAV1(t.track, ntp, pts, av1TU(ra, par, pay, fill))
+	case "h265":
+		return r.m.WriteH265(t.track, ntp, pts, c9BuildH265(par, ra, pay, fill))
 	}
 	panic("codec")
 }
 
 func mxPayOfOther(c string, payload []byte) int {
 	switch c {
+	case "h265":
+		for _, n := range splitAVCC(payload) {
+			if len(n) >= 2 {
+				if t := (n[0] >> 1) & 0x3f; t == 19 || t == 1 {
+					return idOf(n[2:])
+				}
+			}
+		}
+		return -1
 	case "vp9":
 		var h vp9.Header
 		if err := h.Unmarshal(payload); err != nil {
